@@ -581,6 +581,27 @@ def _it_deref_elems(ev, args, depth):
     return Iter([deref(x) for x in it.items])
 
 
+def _it_any(ev, args, depth):
+    it = deref(args[0])
+    if not isinstance(it, Iter):
+        raise Unknown("any over %r" % (it,))
+    return any(bool(ev.call_closure(args[1], [x], depth)) for x in it.items)
+
+
+def _it_all(ev, args, depth):
+    it = deref(args[0])
+    if not isinstance(it, Iter):
+        raise Unknown("all over %r" % (it,))
+    return all(bool(ev.call_closure(args[1], [x], depth)) for x in it.items)
+
+
+def _it_count(ev, args, depth):
+    it = deref(args[0])
+    if not isinstance(it, Iter):
+        raise Unknown("count over %r" % (it,))
+    return len(it.items)
+
+
 def _collect(ev, args, depth):
     it = deref(args[0])
     if not isinstance(it, Iter):
@@ -678,6 +699,11 @@ STD_MODELS = {
     "std::iter::Iterator::cloned": _it_deref_elems,
     "std::iter::Iterator::copied": _it_deref_elems,
     "std::iter::Iterator::collect": _collect,
+    "std::iter::Iterator::any": _it_any,
+    "<std::slice::Iter<'a, T> as std::iter::Iterator>::any": _it_any,
+    "std::iter::Iterator::all": _it_all,
+    "<std::slice::Iter<'a, T> as std::iter::Iterator>::all": _it_all,
+    "std::iter::Iterator::count": _it_count,
     "<std::vec::Vec<T, A> as std::ops::Deref>::deref": _vec_deref,
     "<std::collections::HashMap<K, V, S, A> as std::clone::Clone>::clone": _clone_fwd,
     "<std::vec::Vec<T, A> as std::clone::Clone>::clone": _clone_fwd,
